@@ -131,6 +131,7 @@ type HandleView struct {
 	Sz   int    `json:"sz"`
 	Nl   int    `json:"nl"`
 	M    int    `json:"m"`
+	Off  int    `json:"off"` // offset of an open regular file (Seek(0, io.SeekCurrent)), -1 otherwise
 }
 
 // View is the per-view observable state.
